@@ -5,8 +5,12 @@ SPEC = {
                      'EV.Notif.C20_complete', 'EV.Notif.C20_complete_block',
                      'EV.Notif.C20_counterexample_drop', 'EV.Notif.C20_counterexample_overwrite_mp',
                      'EV.Notif.C20_counterexample_overwrite_bp'],
-        'suites': ['notif'],
+        'suites': ['notif', 'system'],
+        # of the real-server histories only the hand-over monitor is C20's: the height a mempool refresh is reported
+        # at is the height its snapshot was taken at (the CALLER of Notifications.on_mempool, MemPool._refresh_hashes)
+        'claims': {'system': {'violation_tags': ['mempool_height'], 'disagreement_tags': ['mempool_height']}},
         'assumptions': [
+            'the two callers of the class are outside the Lean model: what BlockProcessor / MemPool._refresh_hashes hand over is judged on the real server (suite system): every on_mempool(touched, h) must carry the height at which the refresh listed the daemon mempool (monitor in harness/world/server.py), added after seeded change C20-8',
             'heights are non-negative (initial _highest_block is -1)',
             'start(h) is called with h >= every block height reported before it (it is called once, with the DB height)',
             'the model is tied to controller.Notifications by differential execution, not by proof',
